@@ -1,9 +1,187 @@
 import JominiModel.Driver.Util
-namespace Jomini.Driver.C18
-open Jomini Jomini.Driver
+import JominiModel.Model.Derive
+/-
+ops of property C18:
 
-/-- ops of property C18 (none yet). -/
+  derive <schema-id> <pairs>       see harness/src/props/c18.rs for the grammar
+
+The schemas below mirror the `#[derive(JominiDeserialize)]` structs compiled into the harness.
+How a pair's key reaches `__FieldVisitor` depends on the rendering (text / binary) and on whether
+the struct requests `deserialize_u16` (`requestsU16`): `deliverText` / `deliverBin`.
+-/
+namespace Jomini.Driver.C18
+open Jomini Jomini.Driver Jomini.Derive
+
+inductive Val where
+  | int (i : Int)
+  | arr (l : List Int)
+  | obj (l : List (String × Val))
+  /-- any other value form (i64:… u64:… f32:… q:… rgb:… or a container holding one): only ever
+  offered to unknown fields, which ignore it; an int field offered one is a type error -/
+  | other
+
+structure Item where
+  asI32 : Bool
+  asId : Bool
+  key : String
+  val : Val
+
+def names : List String :=
+  ["a", "b", "c", "d", "e", "f", "x", "core", "l", "dd", "both", "g", "bee", "u1", "u2", "inner", "inners", "last", "u", "v", "w",
+   "cores", "zz", "yy", "k1", "k2"]
+
+def nameId (k : String) : Option Nat := (names.findIdx? (· == k)).map (· + 0x2d00)
+def resolvable (k : String) : Bool := !(k.startsWith "u") || k == "u"
+
+def basic : Schema := [
+  { name := "a" }, { name := "b", isOption := true }, { name := "c", dflt := .yes }, { name := "d", dflt := .path },
+  { name := "e", kind := .duplicated }, { name := "f", kind := .takeLast }]
+
+def aliased : Schema := [
+  { name := "a", alias := some "x" },
+  { name := "cores", alias := some "core", kind := .duplicated },
+  { name := "last", alias := some "l", kind := .takeLast, isOption := true },
+  { name := "d", alias := some "dd", dflt := .path, isOption := true },
+  { name := "both", kind := .duplicated },   -- `duplicated, take_last`: duplicated wins
+  { name := "g", kind := .takeLast, dflt := .path }]
+
+def tok : Schema := [
+  { name := "a", token := some 0x2d00 },
+  { name := "e", token := some 0x2d04, kind := .duplicated },
+  { name := "f", token := some 0x2d05, kind := .takeLast, isOption := true },
+  { name := "b", token := some 0x2d01, alias := some "bee" },
+  { name := "c", token := some 0x2d02, dflt := .yes },
+  { name := "u1", token := some 0x2d0d, isOption := true }]
+
+def inner : Schema := [
+  { name := "u" }, { name := "v", kind := .duplicated }, { name := "w", kind := .takeLast, isOption := true }]
+
+def nested : Schema := [
+  { name := "inner" }, { name := "inners", kind := .duplicated }, { name := "x", isOption := true },
+  { name := "last", kind := .takeLast, isOption := true }]
+
+def withS : Schema := [
+  { name := "a" }, { name := "f", kind := .takeLast }, { name := "e", kind := .duplicated }, { name := "c", dflt := .yes }]
+
+/-- fields of `with` carrying `deserialize_with = "plus1000"`; the attribute is not consulted for
+`duplicated` fields (lib.rs:344 vs 380-403) -/
+def usesWith (sid : String) (f : FieldSpec) : Bool := sid == "with" && f.kind != .duplicated
+
+def isDigits (s : String) : Bool := !s.isEmpty && s.all Char.isDigit
+
+/-- text: keys are scalars; `deserialize_identifier` → `visit_str`; `deserialize_u16` →
+`deserialize_u64` → `visit_u64` when the key parses as u64 (not implemented by the field visitor) -/
+def deliverText (schema : Schema) (it : Item) : Key :=
+  if requestsU16 schema && isDigits it.key then .other else .str it.key
+
+/-- binary: a string key → `visit_str`; a token id → `visit_u16(id)` under `deserialize_u16`,
+else the resolver's name, else (`FailedResolveStrategy::Ignore`) a name no field answers to -/
+def deliverBin (schema : Schema) (it : Item) : Key :=
+  if it.asI32 then .other else   -- an I32 key: `visit_i32`
+  match it.asId, nameId it.key with
+  | true, some id =>
+    if requestsU16 schema then .u16 id
+    else if resolvable it.key then .str it.key else .str "__internal_identifier_ignore"
+  | _, _ => .str it.key
+
+/-- split at `sep` outside of brackets -/
+def splitTop (sep : Char) (s : String) : List String :=
+  let (parts, cur, _) := s.toList.foldl (fun (acc : List String × List Char × Nat) c =>
+    let (parts, cur, depth) := acc
+    if c == '[' || c == '{' then (parts, c :: cur, depth + 1)
+    else if c == ']' || c == '}' then (parts, c :: cur, depth - 1)
+    else if c == sep && depth == 0 then (String.ofList cur.reverse :: parts, [], depth)
+    else (parts, c :: cur, depth)) ([], [], 0)
+  (String.ofList cur.reverse :: parts).reverse
+
+def parseVal (fuel : Nat) (s : String) : Option Val :=
+  match fuel with
+  | 0 => some .other
+  | fuel + 1 =>
+    if s.startsWith "[" then
+      let body := ((s.drop 1).dropEnd 1).toString
+      if body.isEmpty then some (.arr []) else
+        match (splitTop '.' body).mapM String.toInt? with
+        | some l => some (.arr l)
+        | none => some .other
+    else if s.startsWith "{" then
+      let body := ((s.drop 1).dropEnd 1).toString
+      if body.isEmpty then some (.obj []) else
+        match (splitTop ';' body).mapM (fun (it : String) =>
+          match it.splitOn "=" with
+          | k :: v :: rest => (parseVal fuel ("=".intercalate (v :: rest))).map (k, ·)
+          | _ => none) with
+        | some l => some (.obj l)
+        | none => some .other
+    else match s.toInt? with
+      | some i => some (.int i)
+      | none => some .other
+
+def parseItem (s : String) : Option Item :=
+  match s.splitOn "=" with
+  | k :: rest =>
+    let v := "=".intercalate rest
+    let (asId, k) := if k.startsWith "#" then (true, (k.drop 1).toString) else (false, k)
+    let (asI32, k) := if k.startsWith "%" then (true, (k.drop 1).toString) else (false, k)
+    (parseVal 6 v).map fun v => { asI32, asId, key := k, val := v }
+  | _ => none
+
+def parsePairs (s : String) : Option (List Item) :=
+  if s == "-" then some [] else
+  -- items are separated by ',' (values never contain ',')
+  (s.splitOn ",").mapM parseItem
+
+def errStr : Err String → String
+  | .duplicate n => s!"err:duplicate:{n}"
+  | .missing n => s!"err:missing:{n}"
+  | .invalidType => "err:invalidtype"
+  | .value s => s
+
+def ints (l : List String) : String := "[" ++ ".".intercalate l ++ "]"
+
+/-- canonical printing of a field value; `zero` = what `Default::default()` prints as -/
+def showField (f : FieldSpec) (sep : String) : FieldVal String → String
+  | .val r => r
+  | .vec l => "[" ++ sep.intercalate l ++ "]"
+  | .dflt => if f.isOption then "none" else "0"
+  | .dfltPath => "777"
+
+def showStruct (schema : Schema) (vals : List (FieldVal String)) : String :=
+  ";".intercalate ((schema.zip vals).map fun (f, v) => s!"{f.name}={showField f "." v}")
+
+/-- `i32::deserialize` of a value (only ints are offered to int fields) -/
+def deInt (plus : Int) : Val → Except String String
+  | .int i => .ok (toString (i + plus))
+  | _ => .error "err:other"
+
+/-- the `Inner` struct of `nested`, deserialized from an object value; keys inside objects are
+always strings -/
+def deInner : Val → Except String String
+  | .obj l =>
+    match run inner (fun _ v => deInt 0 v) (l.map fun (k, v) => (Key.str k, v)) with
+    | .ok vals => .ok ("{" ++ showStruct inner vals ++ "}")
+    | .error e => .error (errStr e)
+  | _ => .error "err:other"
+
+def deField (sid : String) (f : FieldSpec) (v : Val) : Except String String :=
+  if sid == "nested" && f.name != "x" then deInner v
+  else deInt (if usesWith sid f then 1000 else 0) v
+
+def schemaOf : String → Option Schema
+  | "basic" => some basic | "aliased" => some aliased | "tok" => some tok
+  | "nested" => some nested | "with" => some withS | _ => none
+
+def runOne (sid : String) (schema : Schema) (deliver : Schema → Item → Key) (items : List Item) : String :=
+  match run schema (deField sid) (items.map fun it => (deliver schema it, it.val)) with
+  | .ok vals => showStruct schema vals
+  | .error e => errStr e
+
 def handle : Handler
+  | ["derive", sid, ps] =>
+    match schemaOf sid, parsePairs ps with
+    | some schema, some items =>
+      some s!"T:{runOne sid schema deliverText items} B:{runOne sid schema deliverBin items}"
+    | _, _ => none
   | _ => none
 
 end Jomini.Driver.C18
